@@ -1,0 +1,10 @@
+//go:build verif
+
+// Contracts for the verification machinery in /verif (comment-only; compiled only with -tags verif).
+package values
+
+//@ func SafeAddUint64
+//@   nofail
+//@   ensures[C11] iff(result1 == nil, a + b <= pow2(64)-1)
+//@   ensures[C11] result1 == nil ==> result0 == a + b
+//@   ensures result1 != nil ==> kind(result1) == OverflowError
